@@ -28,7 +28,7 @@ def S(name):
 def entries():
     """name -> (list of parameter names, kind list, f(args)) ; kind: 'angle' | 'length' | 'small'"""
     import spatialmath.base as b
-    from spatialmath import SO3, SE3, Twist3
+    from spatialmath import SO3, SE3, SO2, SE2, Twist3
     A, L = "angle", "length"
     T = lambda a, x, y, z: b.transl(x, y, z) @ b.trotx(a)                       # noqa: E731  a symbolic SE(3) matrix
 
@@ -63,6 +63,18 @@ def entries():
         "SE3.inv": ([A, L], lambda a, x: (SE3.Tx(x) * SE3.Rx(a)).inv()), "SE3.Ad": ([A, L], lambda a, x: (SE3.Tx(x) * SE3.Rx(a)).Ad()),
         "SE3.jacob": ([A, L], lambda a, x: (SE3.Tx(x) * SE3.Rx(a)).jacob()),
         "simplify": ([A, L], lambda a, x: (SE3.Rx(a) * SE3.Tx(x) * SE3.Rx(a)).simplify()),
+        "qpow(-3)": ([L, L, L, L], lambda s, x, y, z: b.qpow([s, x, y, z], -3)),
+        "qpow(-2)": ([L, L, L, L], lambda s, x, y, z: b.qpow(np.array([s, x, y, z]), -2)),
+        "qpow(-1)": ([L, L, L, L], lambda s, x, y, z: b.qpow([s, x, y, z], -1)),
+        "qpow(0)": ([L, L, L, L], lambda s, x, y, z: b.qpow([s, x, y, z], 0)),
+        "qpow(3)": ([L, L, L, L], lambda s, x, y, z: b.qpow((s, x, y, z), 3)),
+        "SE3(ndarray[x,y,z])": ([L, L, L], lambda x, y, z: SE3(np.array([x, y, z]))),
+        "SE3(ndarray column)": ([L, L, L], lambda x, y, z: SE3(np.array([[x], [y], [z]]))),
+        "SE3([x,y,z])": ([L, L, L], lambda x, y, z: SE3([x, y, z])),
+        "SE2(ndarray[x,y,theta])": ([L, L, A], lambda x, y, a: SE2(np.array([x, y, a]))),
+        "SE2(x,y,theta)": ([L, L, A], lambda x, y, a: SE2(x, y, a)),
+        "SO2(theta)": ([A], lambda a: SO2(a)),
+        "SO2(ndarray[theta])": ([A], lambda a: SO2(np.array([a]))),
         "Twist3.Rx": ([A], lambda a: Twist3.Rx(a)), "Twist3.Ry": ([A], lambda a: Twist3.Ry(a)), "Twist3.Rz": ([A], lambda a: Twist3.Rz(a)),
         # symbolic pose expressions
         "SE3.Rx*SE3.Tx": ([A, L], lambda a, x: SE3.Rx(a) * SE3.Tx(x)),
